@@ -4,7 +4,6 @@ import (
 	"context"
 	"fmt"
 	"os"
-	"os/signal"
 	"runtime"
 	"strconv"
 	"strings"
@@ -29,6 +28,8 @@ type procController struct {
 	crashAt int
 	sigAt   int
 	sig     syscall.Signal
+	sig2At  int
+	sig2    syscall.Signal
 	failAt  int
 	failErr syscall.Errno
 	last    map[*Op]int
@@ -44,6 +45,7 @@ var sigs = map[string]syscall.Signal{"INT": syscall.SIGINT, "TERM": syscall.SIGT
 
 func init() {
 	tr, cr, sg, fl := os.Getenv("VERIF_TRACE"), os.Getenv("VERIF_CRASH_AT"), os.Getenv("VERIF_SIGNAL_AT"), os.Getenv("VERIF_FAIL_AT")
+	sg2 := os.Getenv("VERIF_SIGNAL2_AT") // a second signal at a later point
 	if tr == "" && cr == "" && sg == "" && fl == "" {
 		return
 	}
@@ -55,6 +57,10 @@ func init() {
 	if p := strings.SplitN(sg, ":", 2); len(p) == 2 {
 		pc.sigAt, _ = strconv.Atoi(p[0])
 		pc.sig = sigs[p[1]]
+	}
+	if p := strings.SplitN(sg2, ":", 2); len(p) == 2 {
+		pc.sig2At, _ = strconv.Atoi(p[0])
+		pc.sig2 = sigs[p[1]]
 	}
 	if p := strings.SplitN(fl, ":", 2); len(p) == 2 {
 		pc.failAt, _ = strconv.Atoi(p[0])
@@ -76,25 +82,25 @@ func (pc *procController) Enter(op *Op) Decision {
 		_ = syscall.Kill(os.Getpid(), syscall.SIGKILL)
 		select {} // never continue
 	}
-	if k == pc.sigAt && pc.sig != 0 {
-		ch := make(chan os.Signal, 1)
-		signal.Notify(ch, pc.sig)
-		_ = syscall.Kill(os.Getpid(), pc.sig)
-		select {
-		case <-ch:
-		case <-time.After(5 * time.Second):
+	if (k == pc.sigAt && pc.sig != 0) || (k == pc.sig2At && pc.sig2 != 0) {
+		sig := pc.sig
+		if k == pc.sig2At && pc.sig2 != 0 {
+			sig = pc.sig2
 		}
-		signal.Stop(ch)
+		// No notifier of our own is registered: whether the signal is caught at all is the application's
+		// business. kill(2) to oneself delivers the signal to the calling thread before it returns, so the
+		// Go runtime has queued it (or the default action has ended the process) when we continue.
+		_ = syscall.Kill(os.Getpid(), sig)
 		// let the application's own handler goroutine run (it cancels the context)
-		for i := 0; i < 50; i++ {
+		for i := 0; i < 100; i++ {
 			runtime.Gosched()
 		}
-		time.Sleep(3 * time.Millisecond)
+		time.Sleep(5 * time.Millisecond)
 	}
 	if k == pc.failAt && pc.failErr != 0 {
 		return Decision{Inject: pc.failErr}
 	}
-	return Decision{}
+	return Decision{Real: true}
 }
 
 func (pc *procController) Exit(op *Op, result string) {
